@@ -754,12 +754,20 @@ def h_flattener_strips_nested_causality(eng):
     C07.h_flatten_symbols_step(eng)
 
 
-HARNESSES = [("tree.flatten_symbols: input/output only at top level", h_flattener_strips_nested_causality), ("Generator.exitClass", h_exit_class), ("Generator._ast_symbols_to_variables", h_symbols_to_variables),
+def h_symbols_do_not_touch_the_derivative_table(eng):
+    """der_states lines up with states because the derivative table holds exactly what get_derivative put there for THIS class's
+    variables.  get_symbol also runs for the symbols of called functions (same generator, bare names): it must leave the table alone.
+    (C18's contract of Generator.get_symbol with this frame condition.)"""
+    from contracts import C18
+    C18.h_get_symbol(eng)
+
+
+HARNESSES = [("Generator.get_symbol leaves the derivative table alone", h_symbols_do_not_touch_the_derivative_table), ("tree.flatten_symbols: input/output only at top level", h_flattener_strips_nested_causality), ("Generator.exitClass", h_exit_class), ("Generator._ast_symbols_to_variables", h_symbols_to_variables),
              ("StateAnnotator", h_state_annotator), ("instances own their prefix lists (deepcopy of ast.Symbol, then the real annotator)", h_instances_own_their_prefix_lists),
              ("Generator.exitClass over the real _ast_symbols_to_variables, arbitrary derivative cache", h_exit_class_composed),
              ("Generator.get_derivative: constants, variables, indexed variables", h_get_derivative),
              ("annotate_states / TreeWalker.walk / handle_walk / skip_child: every node is delivered, bracketed", h_annotate_states_delivery)]
-EXPECTED_COVER = {"step.nested", "step.top", "class.done", "vars.done", "annot.enterExpression", "annot.exitExpression", "annot.exitComponentRef", "own.copied", "composed.done", "der.constant", "der.symbol", "der.indexed",
+EXPECTED_COVER = {"symbol.created", "symbol.rejected", "step.nested", "step.top", "class.done", "vars.done", "annot.enterExpression", "annot.exitExpression", "annot.exitComponentRef", "own.copied", "composed.done", "der.constant", "der.symbol", "der.indexed",
                   "deliver.start", "deliver.skip", "deliver.walk", "deliver.handle"}
 BOUNDED = True
 LEVEL = "proof"
